@@ -13,10 +13,14 @@ package bbr
 // at the time of the call and the random gain-cycle offset drawn by enterProbeBandwidthMode.
 
 import (
+	"fmt"
 	"math"
 	"math/big"
+	"math/rand"
 	"os"
 	"reflect"
+	"sort"
+	"time"
 
 	"github.com/apernet/quic-go/congestion"
 	"github.com/apernet/quic-go/monotime"
@@ -238,4 +242,205 @@ func c12RndOf(b *bbrSender) int64 {
 	return int64(b.cycleCurrentOffset) - 1
 }
 
-var _ = congestion.ByteCount(0)
+
+// ---------------------------------------------------------------- kind "api": calls limited only by the theorems' precondition
+// Random call sequences that satisfy `fevs_ok` (coq/proof/C12_Full.v) and nothing more: packet numbers may repeat or go
+// back, acked / lost packets may never have been sent, times may stand still or go back, OnPacketSent may report zero
+// bytes in flight for a retransmittable packet (quic-go never does: it adds the packet first), MinRTT changes freely.
+// The real sender must not panic and must keep the window / pacing clauses; the full model replays every call.
+type c12ApiIn struct {
+	Seed    int64  `json:"seed"`
+	Profile string `json:"profile"`
+	Mds     int64  `json:"mds"`
+	N       int    `json:"n"`
+	MaxPkts int64  `json:"maxPkts"`
+	IcwPkts int64  `json:"icwPkts"`
+}
+
+func c12Api(in *c12ApiIn, res map[string]any) {
+	rng := rand.New(rand.NewSource(in.Seed))
+	var now int64 = int64(time.Millisecond)
+	rtt := &c12RTT{}
+	var b *bbrSender
+	if in.MaxPkts > 0 {
+		b = newBbrSender(c12Clock{&now}, congestion.ByteCount(in.Mds), congestion.ByteCount(in.IcwPkts*in.Mds),
+			congestion.ByteCount(in.MaxPkts*in.Mds), Profile(in.Profile))
+	} else {
+		b = NewBbrSender(c12Clock{&now}, congestion.ByteCount(in.Mds), Profile(in.Profile))
+	}
+	b.SetRTTStatsProvider(rtt)
+	rec := c12NewReplay(in.N + 1)
+	rec.record(b, 3, now, 0, nil, nil)
+	ok, why := true, ""
+	fail := func(s string) {
+		if ok {
+			ok, why = false, s
+		}
+	}
+	mds := in.Mds
+	nextPn := int64(0)
+	var sent []([2]int64) // pn, bytes of retransmittable packets not yet reported
+	var bif int64
+	modes := map[int]bool{}
+	nCong, nSent := 0, 0
+	for i := 0; i < in.N && ok; i++ {
+		// time
+		switch r := rng.Intn(20); {
+		case r == 0:
+			now -= rng.Int63n(1 + now/2)
+			if now <= 0 {
+				now = 1
+			}
+		case r == 1:
+		case r < 5:
+			now += rng.Int63n(400) * int64(time.Millisecond)
+		default:
+			now += rng.Int63n(3000) * int64(time.Microsecond)
+		}
+		if rng.Intn(6) == 0 || rtt.min == 0 {
+			rtt.min = time.Duration(1+rng.Int63n(200)) * time.Millisecond / time.Duration(1+rng.Intn(4))
+		}
+		k := rng.Intn(100)
+		switch {
+		case k < 55: // OnPacketSent
+			pn := nextPn
+			switch r := rng.Intn(30); {
+			case r == 0 && nextPn > 0:
+				pn = rng.Int63n(nextPn) // out of order / duplicate
+			case r < 3:
+				nextPn += 1 + rng.Int63n(4)
+				pn = nextPn
+				nextPn++
+			default:
+				nextPn++
+			}
+			size := mds
+			if rng.Intn(8) == 0 {
+				size = rng.Int63n(mds + 1)
+			}
+			retx := rng.Intn(12) != 0
+			if retx {
+				bif += size
+				sent = append(sent, [2]int64{pn, size})
+			}
+			rep := bif
+			switch r := rng.Intn(25); {
+			case r == 0:
+				rep = 0 // a retransmittable packet reported with nothing in flight (Chromium's convention)
+			case r == 1:
+				rep = rng.Int63n(1 + 2*bif)
+			}
+			minRtt := int64(rtt.min)
+			if nCong == 0 && rng.Intn(2) == 0 {
+				rtt.min, minRtt = 0, 0 // MinRTT() = 0 before the first sample
+			}
+			p, msg := vCatch(func() {
+				b.OnPacketSent(monotime.Time(now), congestion.ByteCount(rep), congestion.PacketNumber(pn), congestion.ByteCount(size), retx)
+			})
+			if p {
+				fail("panic in OnPacketSent: " + msg)
+				break
+			}
+			nSent++
+			rec.record(b, 0, now, minRtt, []int64{rep, pn, size, c12B(retx)}, nil)
+		case k < 97: // OnCongestionEventEx
+			if rtt.min == 0 {
+				rtt.min = time.Duration(1+rng.Int63n(100)) * time.Millisecond
+			}
+			var acked, lost [][2]int64
+			pick := func(p int) [][2]int64 {
+				var out [][2]int64
+				keep := sent[:0]
+				for _, s := range sent {
+					if rng.Intn(100) < p && len(out) < 40 {
+						out = append(out, s)
+					} else {
+						keep = append(keep, s)
+					}
+				}
+				sent = keep
+				return out
+			}
+			acked = pick(20 + rng.Intn(60))
+			if rng.Intn(5) == 0 {
+				lost = pick(rng.Intn(40))
+			}
+			if rng.Intn(15) == 0 { // a packet the sender never saw (or saw long ago)
+				acked = append(acked, [2]int64{nextPn + rng.Int63n(5), 1 + rng.Int63n(mds)})
+			}
+			if rng.Intn(25) == 0 {
+				lost = append([][2]int64{{rng.Int63n(1 + nextPn), 1 + rng.Int63n(mds)}}, lost...)
+			}
+			if len(acked)+len(lost) == 0 {
+				lost = [][2]int64{{nextPn + 7, mds}}
+			}
+			prior := bif
+			if rng.Intn(20) == 0 {
+				prior = rng.Int63n(1 + 2*bif)
+			}
+			var ai []congestion.AckedPacketInfo
+			var li []congestion.LostPacketInfo
+			var pk [][2]int64
+			for _, a := range acked {
+				ai = append(ai, congestion.AckedPacketInfo{PacketNumber: congestion.PacketNumber(a[0]), BytesAcked: congestion.ByteCount(a[1])})
+				bif -= a[1]
+				pk = append(pk, a)
+			}
+			for _, l := range lost {
+				li = append(li, congestion.LostPacketInfo{PacketNumber: congestion.PacketNumber(l[0]), BytesLost: congestion.ByteCount(l[1])})
+				bif -= l[1]
+				pk = append(pk, l)
+			}
+			if bif < 0 {
+				bif = 0
+			}
+			p, msg := vCatch(func() {
+				b.OnCongestionEventEx(congestion.ByteCount(prior), monotime.Time(now), ai, li)
+			})
+			if p {
+				fail("panic in OnCongestionEventEx: " + msg)
+				break
+			}
+			nCong++
+			rec.record(b, 1, now, int64(rtt.min), []int64{prior, c12RndOf(b), int64(len(ai)), int64(len(li))}, pk)
+		default: // SetMaxDatagramSize
+			s := mds + rng.Int63n(int64(congestion.MaxPacketBufferSize)-mds+1)
+			p, msg := vCatch(func() { b.SetMaxDatagramSize(congestion.ByteCount(s)) })
+			if p {
+				fail("panic in SetMaxDatagramSize: " + msg)
+				break
+			}
+			mds = s
+			rec.record(b, 2, now, int64(rtt.min), []int64{s}, nil)
+		}
+		if !ok {
+			break
+		}
+		cw, m := int64(b.GetCongestionWindow()), int64(b.maxDatagramSize)
+		if cw < 4*m || cw > int64(b.maxCongestionWindow) {
+			fail(fmt.Sprintf("call %d: GetCongestionWindow=%d outside [4*mds=%d, max=%d]", i, cw, 4*m, b.maxCongestionWindow))
+		}
+		if bw := int64(b.bandwidthForPacer()); bw < 65536 {
+			fail(fmt.Sprintf("call %d: bandwidthForPacer=%d < 65536", i, bw))
+		}
+		if !b.CanSend(congestion.ByteCount(4*m - 1)) {
+			fail(fmt.Sprintf("call %d: CanSend(4*mds-1) is false", i))
+		}
+		modes[int(b.mode)] = true
+	}
+	res["ok"], res["why"] = ok, why
+	res["replay"] = rec.lits
+	res["replayEvents"] = rec.n
+	if rec.over != "" {
+		res["replayOver"] = rec.over
+	}
+	if rec.debug {
+		res["replayObs"] = rec.full
+	}
+	ms := []int{}
+	for m := range modes {
+		ms = append(ms, m)
+	}
+	sort.Ints(ms)
+	res["stats"] = map[string]any{"sent": nSent, "cong": nCong, "modes": ms, "events": nSent + nCong}
+}
